@@ -436,7 +436,7 @@ class BytesDataType(ElementaryDataType):
 
     @classmethod
     def _encode(cls, value: bytes, *args, **kwargs) -> bytes:
-        return value[: cls.size] if cls.size != -1 else value[:]
+        return bytes(value[: cls.size] if cls.size != -1 else value[:])
 
     @classmethod
     def _decode(cls, stream: BytesIO) -> bytes:
